@@ -177,6 +177,26 @@ Lemma evals_ref_normal_fail r body pos rest :
   evals body AtNon pos rest PFail -> evals (PRef r) AtNon pos rest PFail.
 Proof. intros Hl Hw Hb. exact (evals_ref_normal r body pos rest _ Hl Hw Hb). Qed.
 
+Lemma evals_range_ok lo hi at_ pos c r : (lo <=? c)%N && (c <=? hi)%N = true ->
+  evals (PRange lo hi) at_ pos (c :: r) (POk (S pos) r []).
+Proof. intro H. exists 1%nat. intros f Hf. ev_S f Hf. rewrite H. reflexivity. Qed.
+
+Lemma evals_range_fail lo hi at_ pos c r : (lo <=? c)%N && (c <=? hi)%N = false ->
+  evals (PRange lo hi) at_ pos (c :: r) PFail.
+Proof. intro H. exists 1%nat. intros f Hf. ev_S f Hf. rewrite H. reflexivity. Qed.
+
+(** no implicit skip outside NonAtomic *)
+Lemma evals_skip_atomic pos r : evals PSkip AtAtomic pos r (POk pos r []).
+Proof. exists 1%nat. intros f Hf. ev_S f Hf. reflexivity. Qed.
+
+(** an atomic rule called from a NonAtomic one: one pair, no inner pairs *)
+Lemma evals_ref_atomic_ok r body pos rest p r' kids :
+  lookup r (g_rules g) = Some (MAtomic, body) ->
+  evals body AtAtomic pos rest (POk p r' kids) -> evals (PRef r) AtNon pos rest (POk p r' [Node r pos p []]).
+Proof.
+  intros Hl [fb Hb]. exists (S fb). intros f Hf. ev_S f Hf. rewrite Hl. rewrite Hb by lia. reflexivity.
+Qed.
+
 Lemma ev_ends_eoi : forall e, ends_with_eoi e = true ->
   forall f at_ pos rest p r k, ev g f e at_ pos rest = POk p r k -> r = [].
 Proof.
